@@ -217,8 +217,33 @@ def r3_flavour(chk):
            _key_is(s.targets[0].value, kw) and norm(s.targets[0].slice) == "'exts'" and norm(s.value) == 'self.exts']
     chk.ob('C19.R3', 'AbstractBorrower.getData/exts-default', bool(inj) and cfg.node_of(inj[0]).lineno < rn.lineno,
            where(mod, fn), "options['exts'] = self.exts must be injected before the reader call")
-    # genTexts attribute default False / set from ctor
+    if inj:
+        common.requires(chk, 'C19.R3', 'AbstractBorrower.getData/exts-default-only-when-absent', cfg, mod,
+                        [cfg.node_of(inj[0])], {"'exts' in %s" % kw: False},
+                        'extensions given by the caller must not be overwritten')
+    # constructor: the flavour given is kept (self.genTexts = genTexts when one is given), the reader is kept
     ci = chk.model.cls('pysmi/borrower/base.py', 'AbstractBorrower')
+    o0, init = ci.find_method('__init__')
+    if init is not None:
+        ip = [a.arg for a in init.args.args]
+        icfg = CFG(init)
+        st_g = [s_ for s_ in walk_no_nested(init) if isinstance(s_, ast.Assign) and norm(s_) == 'self.genTexts = %s' % ip[2]]
+        common.requires(chk, 'C19.R3', 'AbstractBorrower.__init__/keeps-flavour', icfg, mod,
+                        [icfg.node_of(x) for x in st_g], {'%s is not None' % ip[2]: True},
+                        'the genTexts flavour passed to the constructor must be stored')
+        st_r = [s_ for s_ in init.body if isinstance(s_, ast.Assign) and norm(s_) == 'self._reader = %s' % ip[1]]
+        chk.ob('C19.R3', 'AbstractBorrower.__init__/keeps-reader', len(st_r) == 1, where(mod, init), '')
+    o1, so = ci.find_method('setOptions')
+    if so is not None:
+        kwn = so.args.kwarg.arg if so.args.kwarg else 'kwargs'
+        txt = norm(so)
+        ok = 'self._reader.setOptions(**%s)' % kwn in txt and common.pmatch(
+            txt, 'for $k in %s:' % kwn, full=False) is not None and common.pmatch(
+            txt, 'setattr(self, $k, %s[$k])' % kwn, full=False) is not None and \
+            isinstance(so.body[-1], ast.Return) and norm(so.body[-1].value) == 'self'
+        chk.ob('C19.R3', 'AbstractBorrower.setOptions', ok, where(mod, so),
+               'options go to the reader and onto the borrower (setattr(self, k, kwargs[k])), returns self')
+    # genTexts attribute default False / set from ctor
     o, v = ci.find_attr('genTexts')
     chk.ob('C19.R3', 'AbstractBorrower.genTexts-default', isinstance(v, ast.Constant) and v.value is False,
            where(mod, ci.node), 'class default of genTexts must be False')
@@ -265,8 +290,7 @@ def r4_requested_stay_eligible(chk):
         for s in walk_no_nested(lp):
             if not isinstance(s, ast.If):
                 continue
-            conj = s.test.values if isinstance(s.test, ast.BoolOp) and isinstance(s.test.op, ast.And) else [s.test]
-            if not any(norm(c).startswith("%s.get('noDeps'" % opt) for c in conj):
+            if not any(norm(c).startswith("%s.get('noDeps'" % opt) for c in ast.walk(s.test)):
                 continue
             n += 1
             conj = ir_conjuncts(s.test)
@@ -275,6 +299,14 @@ def r4_requested_stay_eligible(chk):
                      for c in conj)
             chk.ob('C19.R4', 'compile/noDeps-borrow-exclusion#%d' % n, ok, where(r.mod, s),
                    'exclusion `%s` does not keep requested names eligible' % norm(s.test))
+            # the exclusion holds exactly for: noDeps on, and the module in none of the sets of wanted names
+            shape = all(norm(c).startswith("%s.get('noDeps'" % opt) or (
+                isinstance(c, ast.Compare) and len(c.ops) == 1 and isinstance(c.ops[0], ast.NotIn) and
+                _key_is(c.left, k)) for c in conj) and sum(1 for c in conj if norm(c).startswith(
+                    "%s.get('noDeps'" % opt)) == 1
+            chk.ob('C19.R4', 'compile/noDeps-borrow-exclusion#%d/shape' % n, shape, where(r.mod, s),
+                   'the exclusion must be `noDeps and %s not in <wanted> [and %s not in <requested>]` (un-negated '
+                   'and-chain of the switch and not-in tests only), found `%s`' % (k, k, norm(s.test)))
     chk.floor('C19.R4', 2, 'two borrow stages')
 
 
